@@ -102,7 +102,7 @@ impl Quantile {
             if index < len - 1 {
                 // `q[index]` and `q[index + 1]` are equally valid estimates,
                 // by convention we take their average.
-                return 0.5 * heights[index] + 0.5 * heights[index + 1];
+                return midpoint(heights[index], heights[index + 1]);
             }
         }
         index = index.max(0.);
@@ -211,4 +211,22 @@ fn reference() {
     assert_eq!(q.m, [1., 5.75, 10.50, 15.25, 20.0]);
     assert_eq!(q.len(), 20);
     assert_almost_eq!(q.quantile(), 4.2462394088036435, 2e-15);
+}
+
+/// Calculate the midpoint of `a <= b` such that the result lies in `[a, b]`.
+///
+/// `0.5 * a + 0.5 * b` underflows for the smallest subnormal numbers (halving
+/// them gives zero), `(a + b) / 2.` overflows for large numbers of equal sign.
+#[inline]
+fn midpoint(a: f64, b: f64) -> f64 {
+    if a == b {
+        // Also covers two equal infinities.
+        a
+    } else if (a < 0.) == (b < 0.) {
+        // Same sign: the difference cannot overflow.
+        a + (b - a) / 2.
+    } else {
+        // Different signs: the sum cannot overflow.
+        (a + b) / 2.
+    }
 }
